@@ -127,6 +127,7 @@ type Interceptor struct {
 	lock            sync.Mutex
 	RecorderFactory RecorderFactory
 	recorders       map[uint32]Recorder
+	closed          bool // set by Close under lock: no recorder goroutine is started afterwards
 	wg              sync.WaitGroup
 	loggerFactory   logging.LoggerFactory
 }
@@ -151,6 +152,11 @@ func (r *Interceptor) getRecorder(ssrc uint32, clockRate float64) Recorder {
 		return rec
 	}
 	rec := r.RecorderFactory(ssrc, clockRate)
+	if r.closed {
+		// a stream bound after (or while) Close: the recorder is never started, so it records nothing
+		// and Close's wg.Wait is not raced by a wg.Add
+		return rec
+	}
 	r.wg.Add(1)
 	go func() {
 		defer r.wg.Done()
@@ -189,6 +195,7 @@ func (r *Interceptor) Close() error {
 	r.lock.Lock()
 	defer r.lock.Unlock()
 
+	r.closed = true
 	for _, r := range r.recorders {
 		r.Stop()
 	}
